@@ -62,7 +62,8 @@ const BYTE_LAWS: &[(&str, &str)] = &[
 ];
 
 fn regexes() -> Vec<String> {
-    let atoms = ["a", ".", "é", "a*", "(a)", "(?<n>a)", "a|b", "^", "$", "", "b+", "[aé]", "\\\\n", "(a)|(b)", "a?"];
+    // the last four visit capture groups in an order different from their positions in the subject
+    let atoms = ["a", ".", "é", "a*", "(a)", "(?<n>a)", "a|b", "^", "$", "", "b+", "[aé]", "\\\\n", "(a)|(b)", "a?", "(?:(a)|(b))*", "(?:(é)|(b)|(a))+", "((a)|(b))*", "(?:(?<x>b)|(?<y>a))+"];
     let mut v: Vec<String> = atoms.iter().map(|s| s.to_string()).collect();
     for x in atoms {
         for y in atoms {
